@@ -106,6 +106,18 @@ Theorem C27_ok_reflects : forall c, ok c = true ->
 Proof. exact OkProofs.ok_reflects. Qed.
 Print Assumptions C27_ok_reflects.
 
+(* ... and conversely ok accepts every run whose slots satisfy the clauses and
+   whose Unsubscribe calls completed (or whose stream was closed) *)
+Theorem C27_ok_complete : forall c,
+  (forall pre sl post, slots c = pre ++ sl :: post -> OkProofs.slot_clause (fold_left ok_step pre (ok_init c)) sl) ->
+  (o_dead (ok_final c) = true \/
+   ((forall b, In b (fin_unsub c) -> b = true) /\
+    length (fin_unsub c) = length (o_calls (ok_final c)) /\
+    (forall i, In i (o_calls (ok_final c)) -> nth i (fin_closed c) false = true))) ->
+  ok c = true.
+Proof. exact OkProofs.ok_complete. Qed.
+Print Assumptions C27_ok_complete.
+
 (* ok accepts the model's own output (canonical schedule) on every well-formed
    script without an exposed stall, exhaustively for 22621 scripts; NOT proved
    for all scripts *)
